@@ -25,9 +25,92 @@ func cfgReach(from, to, avoid *ssa.BasicBlock) bool {
 	return false
 }
 
-// loopSkipsOnlyVia: target lies in a loop, and a way round that loop which avoids
-// all target blocks must cross an edge carrying one of the allowed literals (the
-// specified reasons for skipping an element). The converse of a guard rule:
+// naturalLoop: the blocks of the loop headed by h (h plus everything that reaches
+// one of h's back-edge sources without passing h); nil if h heads no loop.
+func naturalLoop(h *ssa.BasicBlock) map[*ssa.BasicBlock]bool {
+	var stack []*ssa.BasicBlock
+	for _, p := range h.Preds {
+		if h.Dominates(p) {
+			stack = append(stack, p)
+		}
+	}
+	if len(stack) == 0 {
+		return nil
+	}
+	body := map[*ssa.BasicBlock]bool{h: true}
+	for len(stack) > 0 {
+		x := stack[len(stack)-1]
+		stack = stack[:len(stack)-1]
+		if body[x] {
+			continue
+		}
+		body[x] = true
+		stack = append(stack, x.Preds...)
+	}
+	return body
+}
+
+// loopHeaderOf: the header of the innermost loop that contains b (nil if none).
+func loopHeaderOf(b *ssa.BasicBlock) *ssa.BasicBlock {
+	for h := b; h != nil; h = h.Idom() {
+		if l := naturalLoop(h); l != nil && l[b] {
+			return h
+		}
+	}
+	return nil
+}
+
+// roundAvoiding: within the loop headed by h there is a way from h back to h that
+// enters none of the avoid blocks and crosses no edge for which stop returns true.
+func roundAvoiding(h *ssa.BasicBlock, avoid map[*ssa.BasicBlock]bool, stop func(b *ssa.BasicBlock, succ int) bool) bool {
+	body := naturalLoop(h)
+	if body == nil {
+		return false
+	}
+	seen := map[*ssa.BasicBlock]bool{}
+	work := []*ssa.BasicBlock{h}
+	first := true
+	for len(work) > 0 {
+		x := work[0]
+		work = work[1:]
+		for i, s := range x.Succs {
+			if !body[s] || avoid[s] || (stop != nil && stop(x, i)) {
+				continue
+			}
+			if s == h {
+				return true
+			}
+			if !seen[s] {
+				seen[s] = true
+				work = append(work, s)
+			}
+		}
+		first = false
+	}
+	_ = first
+	return false
+}
+
+// everyIterationPasses: b lies in a loop and every way round the innermost such
+// loop goes through b - no iteration returns to the loop header having skipped b.
+// Dominating branch literals do not see a skip that is guarded by a disjunction
+// or conjunction (`if i == 0 && n > 1 { continue }`): b is then reached over two
+// edges and neither condition dominates it. This is the path form of
+// "unconditional within the loop". inLoop=false when b is in no loop.
+func everyIterationPasses(b *ssa.BasicBlock) (passes, inLoop bool) {
+	h := loopHeaderOf(b)
+	if h == nil {
+		return false, false
+	}
+	if h == b {
+		return true, true
+	}
+	return !roundAvoiding(h, map[*ssa.BasicBlock]bool{b: true}, nil), true
+}
+
+// loopSkipsOnlyVia: the targets lie in a loop, and a way round that loop which
+// avoids all target blocks must cross an edge carrying one of the allowed literals
+// (the specified reasons for skipping an element). The converse of a guard rule:
 // "what matches IS applied".
 func loopSkipsOnlyVia(v *FnView, targets []*ssa.BasicBlock, allowed []string) (ok, inLoop bool) {
 	if len(targets) == 0 {
@@ -56,75 +139,5 @@ func loopSkipsOnlyVia(v *FnView, targets []*ssa.BasicBlock, allowed []string) (o
 		}
 		return false
 	}
-	for si, s := range h.Succs {
-		if !h.Dominates(s) || !cfgReach(s, h, nil) || avoid[s] || edgeAllowed(h, si) {
-			continue
-		}
-		seen := map[*ssa.BasicBlock]bool{s: true}
-		work := []*ssa.BasicBlock{s}
-		for len(work) > 0 {
-			x := work[0]
-			work = work[1:]
-			for i, nx := range x.Succs {
-				if avoid[nx] || edgeAllowed(x, i) {
-					continue
-				}
-				if nx == h {
-					return false, true
-				}
-				if !seen[nx] && h.Dominates(nx) {
-					seen[nx] = true
-					work = append(work, nx)
-				}
-			}
-		}
-	}
-	return true, true
-}
-
-// loopHeaderOf: the innermost loop header whose loop contains b (nil if none).
-func loopHeaderOf(b *ssa.BasicBlock) *ssa.BasicBlock {
-	for h := b; h != nil; h = h.Idom() {
-		for _, p := range h.Preds {
-			if h.Dominates(p) && (h == b || cfgReach(b, h, nil)) {
-				return h
-			}
-		}
-	}
-	return nil
-}
-
-// everyIterationPasses: b lies in a loop and every way round that loop goes
-// through b - no iteration returns to the loop header having skipped b.
-// Dominating branch literals do not see a skip that is guarded by a disjunction
-// or conjunction (`if i == 0 && n > 1 { continue }`): b is then reached over two
-// edges and neither condition dominates it. This is the path form of
-// "unconditional within the loop". ok=false when b is in no loop.
-func everyIterationPasses(b *ssa.BasicBlock) (passes, inLoop bool) {
-	reach := cfgReach
-	// innermost loop header: nearest dominator of b (or b itself) with a back edge, from which b is reachable and back
-	for h := b; h != nil; h = h.Idom() {
-		back := false
-		for _, p := range h.Preds {
-			if h.Dominates(p) {
-				back = true
-			}
-		}
-		if !back || !(h == b || reach(b, h, nil)) {
-			continue
-		}
-		if h == b {
-			return true, true
-		}
-		for _, s := range h.Succs {
-			if !h.Dominates(s) || !reach(s, h, nil) {
-				continue // loop exit
-			}
-			if reach(s, h, b) {
-				return false, true
-			}
-		}
-		return true, true
-	}
-	return false, false
+	return !roundAvoiding(h, avoid, edgeAllowed), true
 }
